@@ -166,3 +166,63 @@ func Harness_C13_readdir_agrees_with_stat() {
 	h.Close()
 	vm.Assert("C13.readdir_locks_free", v.Env.LocksFree())
 }
+
+// Harness_C13_handle_outlives_its_entry: a handle opened for writing is still open while its entry is removed (alone,
+// with its directory, or replaced by a directory of the same name) or its directory is renamed; the handle is written
+// to before or after that and then closed. The tree stays well formed, a removed entry stays removed and a directory
+// that took the name stays a directory.
+func Harness_C13_handle_outlives_its_entry() {
+	v := verifNewFS(config.PipeConfig{}, false, true)
+	v.rootOnly()
+	v.Env.AddEntry("/d", tar.TypeDir, 0, false, "")
+	v.Env.AddEntry("/d/g", tar.TypeReg, 2, false, "")
+	copy(v.Env.Tape.LastMember().Data, []byte("pq"))
+	h, err := v.FS.OpenFile("/d/g", os.O_RDWR, 0)
+	vm.Assert("C13.open_for_writing_ok", err == nil)
+	if err != nil {
+		return
+	}
+	writeFirst := vm.Bool("writeBeforeTheEntryGoes")
+	if writeFirst {
+		_, werr := h.Write([]byte("X"))
+		vm.Assert("C13.write_ok", werr == nil)
+	}
+	ev := vm.Choice("event", 4)
+	var eerr error
+	switch ev {
+	case 0:
+		eerr = v.FS.Remove("/d/g")
+	case 1:
+		eerr = v.FS.RemoveAll("/d")
+	case 2:
+		eerr = v.FS.Remove("/d/g")
+		if eerr == nil {
+			eerr = v.FS.Mkdir("/d/g", 0o755)
+		}
+	case 3:
+		eerr = v.FS.Rename("/d", "/e")
+	}
+	vm.Assert("C13.event_ok", eerr == nil)
+	if eerr != nil {
+		return
+	}
+	if !writeFirst {
+		h.Write([]byte("X"))
+	}
+	h.Close()
+	rows := v.Env.P.VerifRows()
+	vm.Assert("C13.tree_well_formed_after_late_close", c13WellFormed(rows))
+	var g *models.Header
+	for _, r := range rows {
+		if r.Deleted != 1 && c13Abs(r.Name) == "/d/g" {
+			g = r
+		}
+	}
+	switch ev {
+	case 0, 1, 3:
+		vm.Assert("C13.entry_gone_stays_gone_after_late_close", g == nil)
+	case 2:
+		vm.Assert("C13.directory_that_took_the_name_stays_a_directory", g != nil && g.Typeflag == int64(tar.TypeDir))
+	}
+	vm.Assert("C13.locks_free_after_late_close", v.Env.LocksFree())
+}
